@@ -286,9 +286,10 @@ func genString(r *Rng, s PShape) (string, []string) {
 		sb.WriteString(a.S)
 		classes = append(classes, a.Class)
 	}
-	if sb.Len() == 0 {
-		sb.WriteString("x")
-		classes = append(classes, "alpha")
+	// every generated value carries at least one letter or digit: values made of punctuation only
+	// ("." "/" ":") hit router-specific path normalisation that has nothing to do with the codec
+	if !contains(classes, "alpha") && !contains(classes, "digit") && !contains(classes, "nonascii") {
+		return "x" + sb.String(), append(classes, "alpha")
 	}
 	return sb.String(), classes
 }
